@@ -180,6 +180,9 @@ func (p *Prog) sym(v ssa.Value) *Sym {
 	case *ssa.Builtin:
 		return &Sym{Op: "const", Name: "builtin:" + v.Name()}
 	case *ssa.FieldAddr:
+		if d := p.derivedLoad(v); d != nil {
+			return d // a field that caches an option denotes the option (derived.go)
+		}
 		return &Sym{Op: "field", Name: fieldName(v.X.Type(), v.Field), Args: []*Sym{p.Sym(v.X)}}
 	case *ssa.Field:
 		return &Sym{Op: "field", Name: fieldName(v.X.Type(), v.Field), Args: []*Sym{p.Sym(v.X)}}
